@@ -9,9 +9,18 @@
    structof <count> <npairs> (term term)*npairs <proto term|nil>
                                  -> term of the struct built by begin(count), the puts in order, proto, end
    find <struct id> <key id>     -> slot index | -1
+   structofx <replace 0|1> <count> <npairs> (term term)*npairs
+                                 -> term of the struct built by begin(count), janet_struct_put_ext(…, replace) in order, end
+   strcmp <hex|-> <hex|->        -> one char '<' '=' '>' (+ 'L' 'G' 'Z' on disagreement of compare and equal) from the statement-level
+                                    mirrors `stringCompareC` / `stringEqualC` of janet_string_compare / janet_string_equal
+   finalmap <replace 0|1> <npairs> (term term)*npairs
+                                 -> term of `structOf (finalMapR replace pairs)`: the struct of the final key→value map
+                                    (Value/RobinDup.lean; equal to structofx by `struct_by_final_map` when count covers the puts)
 -/
 import Driver.Util
 import JanetModel.Value.Struct
+import JanetModel.Value.RobinDup
+import JanetModel.Value.StringLoop
 open Driver JanetModel.Value
 
 abbrev V := JVal F64
@@ -110,6 +119,33 @@ def step (st : Array V) (toks : List String) : Array V × String :=
         | some (p, []), some kvs => (st, showTerm (structOfCount c kvs (if p.isNil then [] else [p])))
         | _, _ => (st, "bad-op")
       | none => (st, "bad-op")
+    | _, _ => (st, "bad-op")
+  | "structofx" :: r :: count :: npairs :: rest =>
+    match count.toNat?, npairs.toNat? with
+    | some c, some n =>
+      match parseMany (2 * n) rest with
+      | some (flat, []) =>
+        match pairsOf flat with
+        | some kvs => (st, showTerm (if r == "1" then structOfCount c kvs [] else structOfCountKeep c kvs))
+        | none => (st, "bad-op")
+      | _ => (st, "bad-op")
+    | _, _ => (st, "bad-op")
+  | "finalmap" :: r :: npairs :: rest =>
+    match npairs.toNat? with
+    | some n =>
+      match parseMany (2 * n) rest with
+      | some (flat, []) =>
+        match pairsOf flat with
+        | some kvs => (st, showTerm (structOf (finalMapR (r == "1") kvs) []))
+        | none => (st, "bad-op")
+      | _ => (st, "bad-op")
+    | none => (st, "bad-op")
+  | ["strcmp", a, b] =>
+    match bytesOf a, bytesOf b with
+    | some x, some y =>
+      let c := stringCompareC x y
+      let e := stringEqualC x y false
+      (st, String.singleton (if c < 0 then (if e then 'L' else '<') else if c == 0 then (if e then '=' else 'Z') else (if e then 'G' else '>')))
     | _, _ => (st, "bad-op")
   | ["find", s, k] =>
     match s.toNat? >>= (st[·]?), k.toNat? >>= (st[·]?) with
